@@ -490,6 +490,29 @@ func TestCrashRestart(t *testing.T) {
 	kit.Check(t, kit.Spec[Case]{Sub: "crash", Quick: 1, Thorough: 10, Gen: genCase, Exec: execCase, NoShrink: !kit.Thorough()})
 }
 
+// genMajorityCase: the scenario behind "the WAL is written before entries are published or
+// acknowledged": two nodes (a majority) die at the same point of Ready handling while under load, a
+// moment after reaching it (so that whatever they handed to the transport gets out), then the third
+// node is killed too; the two come back first and must serve alone before the third returns. Anything
+// that was acknowledged on the strength of their replies must have been durable on them.
+func genMajorityCase(t *rapid.T) Case {
+	a := 1 + rapid.IntRange(0, 2).Draw(t, "a")
+	c := Case{CrashPoint: rapid.SampledFrom([]string{"after-append", "after-send", "after-publish", "before-wal-save", "after-wal-save", "before-advance"}).Draw(t, "point"),
+		CrashNth: 1, CrashNodes: []int{a, 1 + a%3}, KillRest: true,
+		ArmAtMs: rapid.SampledFrom([]int{10, 25, 50, 80}).Draw(t, "armat"), LingerMs: rapid.SampledFrom([]int{5, 10, 20}).Draw(t, "linger")}
+	p := Phase{PerWriter: 60, Kinds: "all", Kill: c.CrashNodes, Restart: rapid.Permutation(c.CrashNodes).Draw(t, "restart")}
+	nw := rapid.IntRange(3, 5).Draw(t, "writers")
+	for w := 0; w < nw; w++ {
+		p.Writers = append(p.Writers, 1+rapid.IntRange(0, 2).Draw(t, "wnode"))
+	}
+	c.Phases = []Phase{p}
+	return c
+}
+
+func TestMajorityLosesTail(t *testing.T) {
+	kit.Check(t, kit.Spec[Case]{Sub: "crash", Quick: 2, Thorough: 25, Gen: genMajorityCase, Exec: execCase, NoShrink: !kit.Thorough()})
+}
+
 // TestCrashPoints: deterministic crash points inside Ready handling and snapshotting (hook H4).
 func TestCrashPoints(t *testing.T) {
 	kit.Check(t, kit.Spec[Case]{Sub: "crash", Quick: 2, Thorough: 20, Gen: genPointCase, Exec: execCase, NoShrink: !kit.Thorough()})
